@@ -21,7 +21,7 @@ def generate(rng, tier):
     K = rng.choice([3, 4, 5]) if tier == "quick" else rng.choice([4, 6, 8])
     scheds = [draw_schedule(rng, ab, gen, identity=(i == 0 and rng.random() < 0.5)) for i in range(K)]
     cap = 60 if tier == "quick" else 130
-    strs = gen.strings(rng, ab, extra=4 if tier == "quick" else 8, cap=cap)
+    strs = gen.cap_ambiguity(ab, gen.strings(rng, ab, extra=4 if tier == "quick" else 8, cap=cap))
     return {
         "property": ID, "grammar": ab, "strings": strs, "schedules": scheds,
         "materialize": rng.choice([0, 1, 2, 2, 3]),
